@@ -51,7 +51,7 @@ ParseFile(f) ==
                 hdrEnd == m.pos + 15
                 b == ParseBlocksF(f, hdrEnd + 1, marker, <<>>, <<hdrEnd>>)
             IN [ok |-> TRUE, why |-> IF b.badmarker THEN "badmarker" ELSE "",
-                meta |-> m.v.entries, marker |-> marker, blocks |-> b.blocks, bounds |-> b.bounds, rest |-> b.rest]
+                meta |-> [i \in 1..Len(m.v.entries) |-> <<m.v.entries[i][1], m.v.entries[i][2].b>>], marker |-> marker, blocks |-> b.blocks, bounds |-> b.bounds, rest |-> b.rest]
 
 (* lookup in the metadata (last entry wins, as for any map) *)
 MetaHas(meta, key) == \E i \in 1..Len(meta) : meta[i][1] = key
